@@ -8,13 +8,13 @@ Open Scope Z_scope.
 Definition kind_of (inp : sx) : Z := match inp with L (A k :: _) => k | _ => -1 end.
 
 Definition check (prop : Z) (inp impl : sx) : sx :=
-  if (prop =? 12) && negb (kind_of inp =? 7) then check_c12 inp impl
+  if (prop =? 12) && (kind_of inp =? 1) then check_c12 inp impl
   else match kind_of inp with
        | 1 => check_eng prop inp impl
        | 2 => check_doc prop inp impl
        | 3 | 4 | 5 | 6 => check_pol prop inp impl
        | 7 => check_drv prop inp impl
-       | 8 | 9 | 10 | 11 | 12 | 22 => check_par prop inp impl
+       | 8 | 9 | 10 | 11 | 12 | 22 | 23 => check_par prop inp impl
        | 13 | 14 => check_iso prop inp impl
        | 18 => check_shared prop inp impl
        | 19 => check_hs_timed prop inp impl
